@@ -454,7 +454,9 @@ class HTTPConnection(_HTTPConnection):
                 if isinstance(chunk, str):
                     chunk = chunk.encode("utf-8")
                 if chunked:
-                    self.send(b"%x\r\n%b\r\n" % (len(chunk), chunk))
+                    # Buffers whose items are wider than one byte (e.g. array('H'))
+                    # must be sized in bytes, not in items.
+                    self.send(b"%x\r\n%b\r\n" % (memoryview(chunk).nbytes, chunk))
                 else:
                     self.send(chunk)
 
